@@ -18,6 +18,7 @@ use versatiles_pipeline::PipelineFactory;
 pub fn render(t: &Value) -> String {
 	match t["op"].as_str().unwrap() {
 		"leaf" => format!("from_container filename=\"src{}\"", t["i"]),
+		"debug" => format!("from_debug format={}{}", t["format"].as_str().unwrap(), if t["format"] == "png" { " fast=true" } else { "" }),
 		"overlay" => format!("from_overlayed [ {} ]", t["srcs"].as_array().unwrap().iter().map(render).collect::<Vec<_>>().join(", ")),
 		"merge" => format!("from_vectortiles_merged [ {} ]", t["srcs"].as_array().unwrap().iter().map(render).collect::<Vec<_>>().join(", ")),
 		"zoom" => {
@@ -122,8 +123,9 @@ fn pipe_case(rt: &tokio::runtime::Runtime, dir: &Path, case: &Value, n: usize) -
 		.map(|s| json!({"tiles": s.tiles.iter().map(|t| json!([t.0,t.1,t.2,t.3])).collect::<Vec<_>>(), "tc": s.tc, "cov": pyramid_json(&s.mem.params.bbox_pyramid)}))
 		.collect();
 	let maxlevel = sources.iter().flat_map(|s| s.tiles.iter().map(|t| t.0)).max().unwrap_or(0).max(7);
+	let is_debug = case.get("debug").and_then(|d| d.as_u64()) == Some(1);
 	let mut ev = json!({"ev":"pipe","id":n,"tree":tree,"vpl":vpl,"invalid":case["invalid"],"sources":src_json,"maxlevel":maxlevel,
-		"files": use_files.clone().unwrap_or_default()});
+		"files": use_files.clone().unwrap_or_default(), "debug": is_debug as u8});
 	let factory = PipelineFactory::default(dir, callback);
 	let built = catch(|| rt.block_on(factory.operation_from_vpl(&vpl)));
 	let empty = |ev: &mut Value| {
@@ -159,6 +161,8 @@ fn pipe_case(rt: &tokio::runtime::Runtime, dir: &Path, case: &Value, n: usize) -
 	// identity of delivered bytes: decode with the DECLARED codec, look the raw payload up in all sources
 	let id_of = |bytes: &[u8]| -> i64 {
 		match indep::decode(&declared, bytes) {
+			// generated tiles (from_debug) are identified by a hash of their bytes
+			Ok(b) if is_debug => (crate::mem::h31(&b) | 0x4000_0000) as i64,
 			Ok(b) => sources.iter().find_map(|s| s.raw.get(&b)).map(|p| *p as i64).unwrap_or(RES_UNKNOWN),
 			Err(_) => RES_UNKNOWN,
 		}
@@ -182,11 +186,18 @@ fn pipe_case(rt: &tokio::runtime::Runtime, dir: &Path, case: &Value, n: usize) -
 			coords.insert((t.0, t.1, t.2.saturating_sub(1)));
 		}
 	}
-	for z in 0..=2u8 {
+	for z in 0..=(if is_debug { 3u8 } else { 2u8 }) {
 		for y in 0..(1u32 << z) {
 			for x in 0..(1u32 << z) {
 				coords.insert((z, x, y));
 			}
+		}
+	}
+	if is_debug {
+		coords.insert((12u8, 5u32, 7u32));
+		// (level 31 only for zoom-only chains: the half-tile arithmetic of the geographic clause does not fit TLC's integers there)
+		if !vpl.contains("filter_bbox") {
+			coords.extend([(31u8, 0u32, 0u32), (31, u32::MAX >> 1, u32::MAX >> 1), (31, 1, 1)]);
 		}
 	}
 	let mut looked: BTreeMap<(u8, u32, u32), i64> = BTreeMap::new();
@@ -202,12 +213,18 @@ fn pipe_case(rt: &tokio::runtime::Runtime, dir: &Path, case: &Value, n: usize) -
 	let rb = crate::c15::raw_box;
 	let mut levels: std::collections::BTreeSet<u8> = sources.iter().flat_map(|s| s.tiles.iter().map(|t| t.0)).collect();
 	levels.insert(1);
+	if is_debug {
+		levels.extend([0u8, 2, 3]);
+	}
 	let mut streams = vec![];
 	for z in levels {
 		let max = ((1u64 << z) - 1) as u32;
 		let mut boxes = vec![TileBBox::new_empty(z).unwrap(), rb(z, 1, 1, 0, 0)];
 		if z <= 6 {
 			boxes.push(TileBBox::new_full(z).unwrap());
+		}
+		if is_debug && z >= 2 {
+			boxes.extend([rb(z, 1, 0, 2, 1), rb(z, 0, 1, 0, 3), rb(z, 3, 3, 3, 3), rb(z, 1, 1, 3, 2)]);
 		}
 		let all: Vec<&(u8, u32, u32, u32)> = sources.iter().flat_map(|s| s.tiles.iter()).filter(|t| t.0 == z).collect();
 		if !all.is_empty() {
